@@ -91,6 +91,9 @@ func (w *World) checkImage(data []byte, exp *RState, oracle, label string) {
 		}
 		return nil // default order
 	}}
+	if w.CBMask&CBFramed != 0 {
+		cb.AfterItemRead = unframeAfterRead
+	}
 	st, err := gkvlite.NewStoreEx(f, cb)
 	if err != nil {
 		if len(exp.Colls) == 0 && exp.End == 0 && strings.Contains(err.Error(), "couldn't find roots") {
